@@ -3,7 +3,7 @@ from vcommon import *
 import scen_common
 
 PID = "C04"
-PROP_V = ["Props/Properties_C04.v"]
+PROP_V = ["Props/Properties_C04.v", "Props/Properties_C01x.v"]
 GEN_MODULES = ["Consts", "Sites"]
 FLOW_FILES = ['cv.c', 'sem_wait.c']
 REPLAY_HINT = "VRT_SEED=<seed> VRT_MODE=<m> _work/h/cv_mix (or waitn_mix)"
@@ -19,7 +19,13 @@ PARTIAL = ["C04_no_lost_wakeup(_waitn): a waiter at its semaphore wait whose rec
            "touch_queue over-approximates the records the dll operations access (every queued record)",
            "'(0, or the object's index from nsync_wait_n)': CvModel logs only was_queued for nsync_wait_n records; the returned index is WaitNModel's theorem (C11_index_world)",
            "configurations: CvModel has one cv, one mutex, one note; waiter-struct reuse across two cvs (remove_count carries over) is covered by the scenario oracles only",
-           "the mutex inside CvModel is abstract (atomic lock field, environment actors for the queue hand-over); MuModel / MuWaitModel are its models"]
+           "the mutex inside CvModel is abstract (atomic lock field, environment actors for the queue hand-over); its concrete counterpart is Model/MuXferModel.v "
+           "(Properties_C01x: MuModel stepped unchanged + cv waits, wake_waiters site by site, transfer, designated-waker re-entry): C04x_transfer_sound (a transferred "
+           "waiter whose flag is still set is on the mutex queue or on the wake list of a thread inside nsync_mu_unlock_slow_), C04x_queue_sets_waiting (MU_WAITING is set "
+           "whenever the queue is non-empty and the spinlock free, so mu.c's release will find it), C04x_spinlock_exclusive, C04x_no_lost_transfer_partial (in a "
+           "quiescent world a sleeping transferred waiter is on the queue, MU_WAITING is set and no fast-path release is possible); C04x_no_lost_transfer_full "
+           "(such a waiter never sleeps beside a FREE mutex) is a Definition: it needs MuProof3's HInv lifted to this wrapper (done for the debugger wrapper, "
+           "not for this one); 30000 random programs of the extracted model show no counterexample"]
 TRUSTED_BASE = ["CvModel's abstract mutex couples the unlocker's store waiting = 0 with its V through the ghost counter `owed`; the coupling (each MuWakeSt is followed by "
                 "that thread's V on the same waiter, nothing owed at the end) is validated on every replayed trace by replay/cv_replay.ml, as is 'every signal/broadcast "
                 "call past the early exit is logged' (#sites 306/404 = |wlog|)",
@@ -46,6 +52,11 @@ def run(tier, seed):
                    "section (every waiter without deadline must finish: a lost or swallowed wake-up ends stuck), readers + ONE signal, signal "
                    "under a read lock, and the single-waiter mode in which a wake-up issued in time must be reported as 0 whatever the clock "
                    "and the note do afterwards; waitn_mix on cvs; non-trivial = runs with semaphore sleeps")
+    tiex = mu_common.tie(res, "muxfer_replay", "MuXferModel", [("cv_mix", {"VRT_MODE": m}, 80, 800) for m in (0, 1, 2, 4)] +
+                         [("cv_mix", {"VRT_MODE": m, "VRT_GENERIC": 0}, 60, 600) for m in (5, 6)], tier, seed)
+    for k in ("traces_validated_against_impl", "lockstep_model_steps"):
+        tie[k] = tie.get(k, 0) + tiex.get(k, 0)
+    tie["model_sites_hit_muxfer"] = tiex.get("model_sites_hit", {})
     cov.update(tie)
     res["coverage"] = cov
     return res
